@@ -125,6 +125,10 @@ def case_opt(col, p):
         # a parameter allowed to range over [-3*p*, 0] (e.g. a selection coefficient): upper bound exactly 0, optimum beyond it
         lower, upper = pstar * 0.05, pstar * 20.0
         lower[1], upper[1] = -3.0 * pstar[1], 0.0
+    elif box == 'zero_lower':
+        # a free parameter whose lower bound is exactly 0 (a migration rate, a proportion)
+        lower, upper = pstar * 0.05, pstar * 20.0
+        lower[0] = 0.0
     elif box == 'above':
         lower, upper = pstar * 1.25, pstar * 50.0         # optimum below the lower bounds
     else:
@@ -255,6 +259,11 @@ def case_grid(col, p):
         fixed = fixedvals if any(fixed_mask) else None
         free = [i for i, f in enumerate(fixed_mask) if not f]
         grid = tuple(slice(pstar[i] * 0.5, pstar[i] * 1.6, pstar[i] * 0.5) for i in free)
+        axes = [np.arange(pstar[i] * 0.5, pstar[i] * 1.6, pstar[i] * 0.5) for i in free]
+        if p.get('integer_grid'):
+            # an all-integer grid (index_exp[1:4:1, ...]): the free vector is of integer type, the fixed values are not integers
+            grid = tuple(slice(int(round(pstar[i] * 0.5)) + 1, int(round(pstar[i] * 0.5)) + 4, 1) for i in free)
+            axes = [np.arange(g.start, g.stop, g.step) for g in grid]
         record.clear()
         info = dict(p, fixed=fixedvals)
         try:
@@ -265,7 +274,6 @@ def case_grid(col, p):
         col.tick(transitions=len(record))
         n += 1
         xopt, fopt = np.array(out[0], dtype=float), out[1]
-        axes = [np.arange(pstar[i] * 0.5, pstar[i] * 1.6, pstar[i] * 0.5) for i in free]
         best, bestll = None, -np.inf
         rec2 = []
         m2 = make_model('linear', k, rec2)
@@ -285,7 +293,7 @@ def case_grid(col, p):
                 col.violation('C12:optimize_grid:fixed_parameter_changed', info, {'params': ev})
                 break
     col.tick(states=n, traces=n)
-    col.distinct('nontrivial', ('grid', k, multinom))
+    col.distinct('nontrivial', ('grid', k, multinom, bool(p.get('integer_grid'))))
 
 
 def case_project(col, p):
@@ -439,6 +447,10 @@ def run(ctx):
         for fixed_mask in ((0, 0), (0, 1), (1, 0)):
             cases.append({'kind': 'opt', 'opt': name, 'model': 'linear', 'k': 2, 'multinom': False, 'box': 'above', 'fixed_only': list(fixed_mask),
                           'start_stride': None, 'one_sided': 'lower'})
+    for name in LOCAL:
+        for fixed_mask in ((0, 0), (0, 1)):
+            cases.append({'kind': 'opt', 'opt': name, 'model': 'linear', 'k': 2, 'multinom': False, 'box': 'zero_lower', 'fixed_only': list(fixed_mask),
+                          'start_stride': None})
     # parameters fixed at exactly 0
     for name in LOCAL:
         for fixed_mask in ((1, 0, 0), (0, 1, 0), (0, 0, 1), (1, 1, 0), (0, 1, 1)):
@@ -449,6 +461,7 @@ def run(ctx):
     for k in (1, 2, 3):
         for multinom in (True, False):
             cases.append({'kind': 'grid', 'k': k, 'multinom': multinom})
+            cases.append({'kind': 'grid', 'k': k, 'multinom': multinom, 'integer_grid': True})
     for k in range(1, 6):
         cases.append({'kind': 'project', 'k': k})
     for k in (1, 2, 3):
